@@ -39,6 +39,26 @@ def contains_ifs(node, sc=None):
                 break
         if cnd.get("k") == "mcall" and cnd["m"] == "contains":
             out.append((cnd, n.get("e") if neg else n["t"], n["t"] if neg else n.get("e")))
+    # the same decision written as a guarded match arm followed by the unguarded arm of the same pattern:
+    #   `P if set.contains(x) => A,  P => B`
+    from facts import pat_variants as _pv
+    for m in nodes(node, "match"):
+        arms = m.get("arms") or []
+        for i, a in enumerate(arms):
+            g = a.get("guard")
+            if not isinstance(g, dict):
+                continue
+            cnd = unblock(g)
+            neg = False
+            while cnd.get("k") == "un" and cnd.get("op") == "Not":
+                neg = not neg
+                cnd = unblock(cnd["a"])
+            if not (cnd.get("k") == "mcall" and cnd["m"] == "contains"):
+                continue
+            heads = sorted(v for v in _pv(a["pat"]) if v)
+            other = next((b for b in arms[i + 1:] if not b.get("guard") and sorted(v for v in _pv(b["pat"]) if v) == heads), None)
+            if other is not None:
+                out.append((cnd, other["body"] if neg else a["body"], a["body"] if neg else other["body"]))
     return out
 
 
@@ -166,10 +186,15 @@ def run(chk, facts, tier, only=None):
                 enum = any(x.get("k") == "mcall" and x["m"] == "enumerate" for x in walk(t["body"]))
                 idcmp = bool(gid and idx and retf and enum)
         tail_true = isinstance(t["body"].get("e"), dict) and t["body"]["e"].get("k") == "lit" and t["body"]["e"]["v"].get("bool") is True
-        chk.expect(empty_false and idcmp and tail_true, "tuple-shorthand:is_tuple_fields",
-                   "javascript::is_tuple_fields must answer false for no fields, false as soon as field i does not have id i, true otherwise "
-                   f"(empty test: {empty_false}, id comparison: {idcmp}, final true: {tail_true}); IDL.Tuple(t0..tn) denotes the record with ids 0..n",
-                   ok_detail="false on empty, false on id(i) != i, else true")
+        import tuplepred
+        if tuplepred.check(chk, c, t, "slice:Field", "tuple-shorthand:is_tuple_fields", False, True,
+                           "IDL.Tuple(t0..tn) denotes the record with ids 0..n"):
+            pass
+        else:
+          chk.expect(empty_false and idcmp and tail_true, "tuple-shorthand:is_tuple_fields",
+                     "javascript::is_tuple_fields must answer false for no fields, false as soon as field i does not have id i, true otherwise "
+                     f"(empty test: {empty_false}, id comparison: {idcmp}, final true: {tail_true}); IDL.Tuple(t0..tn) denotes the record with ids 0..n",
+                     ok_detail="false on empty, false on id(i) != i, else true")
         # labels
         h = fn("pp_label")
         sc = scope(h["key"])
@@ -355,8 +380,9 @@ def run(chk, facts, tier, only=None):
         # (a0) both walkers visit every constructor that contains types: a constructor left to the fall-through arm hides the definitions
         #      (chase_type) or the forward references (infer_rec::go) below it
         CHILDREN = ("Opt", "Vec", "Record", "Variant", "Func", "Service", "Class")
+        from shared import scanner_of_infer_rec
         for wname in ("chase_type", "infer_rec::go"):
-            wh = c.fn("^" + re.escape(AN + wname) + "$")
+            wh = c.fn("^" + re.escape(AN + wname) + "$") if wname == "chase_type" else scanner_of_infer_rec(c)
             chk.analysed(wh["key"])
             wm = the_match(wh, r"TypeInner$", 5)
             covered = set()
@@ -406,7 +432,7 @@ def run(chk, facts, tier, only=None):
         chk.floor("producers of definition lists (chase_actor, chase_types)", producers, 2)
         # (a') infer_rec: a name is recursive iff it is referenced before its definition has been passed
         h = c.fn("^" + re.escape(AN + "infer_rec") + "$")
-        g = c.fn("^" + re.escape(AN + "infer_rec::go") + "$")
+        g = scanner_of_infer_rec(c)
         chk.analysed(h["key"], g["key"])
         gs = scope(g["key"])
         gm = the_match(g, r"TypeInner$", 5)
@@ -508,13 +534,13 @@ def run(chk, facts, tier, only=None):
         sc = scope(h["key"])
         vbs = var_binders(sc)
         ifs = contains_ifs(h["body"], sc)
-        if len(ifs) != 1 or len(vbs) != 1:
+        if len(ifs) != 1 or not vbs:
             raise AnchorMissing("javascript::pp_actor: `if recs.contains(id)` in the Var arm not found")
         cnd, br_in, br_out = ifs[0]
         fa = Flat([c, cc], sc)
         tl, el = lits(fa.flat(br_in)), lits(fa.flat(br_out))
         R = root_local(sc, cnd["recv"])
-        chk.expect(".getType()" in tl and ".getType()" not in el and alias_root(sc, cnd["args"][0]) is vbs[0] and R is not None
+        chk.expect(".getType()" in tl and ".getType()" not in el and any(alias_root(sc, cnd["args"][0]) is vb for vb in vbs) and R is not None
                    and R.kind == "param" and "BTreeSet" in (R.ty or ""), "pp_actor:getType-iff-rec",
                    f"javascript::pp_actor must append `.getType()` to the actor's type name exactly when it is in `recs` (an IDL.Rec() is not a "
                    f"service type); literals for a member of recs: {tl}, for a non-member: {el}", ok_detail="recs.contains(id) ? id.getType() : id")
